@@ -351,7 +351,26 @@ def unit_supports(prop, which):
     return unit
 
 
+def unit_deltas(prop):
+    def unit(tier, known):
+        from contracts import post_deltas as C
+        jobs = [("contracts.post_deltas", "generate", (prop, label)) for label in C.LABELS]
+        return run_parallel("deltas_apply", jobs, to_case=C.to_case, replay_module="rtc.c15")
+    unit.__name__ = "deltas_apply"
+    return unit
+
+
+def unit_stack(prop):
+    def unit(tier, known):
+        from contracts import post_stack as C
+        jobs = [("contracts.post_stack", "generate", (prop, label)) for label in C.LABELS]
+        return run_parallel("stack_apply", jobs, to_case=C.to_case, replay_module="rtc.c15")
+    unit.__name__ = "stack_apply"
+    return unit
+
+
 UNITS = {
+    "C15": [unit_deltas("C15"), unit_stack("C15")],
     "C07": [unit_supports("C07", "tri"), unit_supports("C07", "fbank")],
     "C03": [unit_si("C03", w) for w in ("chunk", "handle_skip", "preamble", "finalize", "full", "geometry")] + [unit_si_frame("C03", w) for w in ("fill", "frame", "dft", "idft")],
     "C13": [_lazy("contracts.shorten", "unit_bit_reader", "C13")],
